@@ -21,7 +21,7 @@ import nlgen
 
 KINDS = ['gdbl', 'gint', 'sol', 'basis', 'iis', 'lazy']
 LEANKIND = {'gdbl': 'generic', 'gint': 'generic', 'sol': 'sol', 'basis': 'basis', 'iis': 'iis', 'lazy': 'lazy'}
-CG_LIN, CG_QUAD = 3, 4
+CG_LIN, CG_QUAD, CG_GEN = 3, 4, 6
 EXTRA_ACCEPT = ['AbsConstraint', 'MaxConstraint', 'MinConstraint', 'AndConstraint', 'OrConstraint', 'NotConstraint',
                 'IndicatorLinConLE', 'IndicatorLinConEQ', 'IndicatorLinConGE', 'CondLinConLE', 'CondLinConGE', 'CondLinConEQ']
 QUADS = ['QuadConRange', 'QuadConLE', 'QuadConEQ', 'QuadConGE']
@@ -109,6 +109,30 @@ def gen_model(rng, feat):
                 i = rng.below(n)
                 shared_abs = ('abs', ('-', ('v', i), ('n', rng.rint(1, 3))))
             m.con(None, a + 20, lin, nl=shared_abs)
+    # functional subexpressions shared by several constraints (each later use is a map hit in the converter)
+    m.atoms = {}
+    if rng.chance(1, 2):
+        for _ in range(rng.rint(1, 2)):
+            fn = rng.choice(['sin', 'cos', 'exp', 'abs', 'max'])
+            i = rng.below(n)
+            if fn == 'max':
+                j = (i + 1 + rng.below(n - 1)) % n
+                key, expr = ('max', (i, j)), ('max', [('v', i), ('v', j)])
+            else:
+                key, expr = (fn, (i,)), (fn, ('v', i))
+            users = m.atoms.setdefault(key, [])
+            for _ in range(rng.rint(2, 3)):
+                lin = gen_lin(rng, n, used, 1, 3)
+                if lin is None:
+                    continue
+                a = F(rng.rint(-12, 12), rng.choice([1, 2]))
+                nl = expr if rng.chance(2, 3) else ('neg', expr)
+                users.append(len(m.cons))
+                if rng.chance(1, 2):
+                    m.con(None, a + 30, lin, nl=nl)
+                else:
+                    m.con(a - 30, None, lin, nl=nl)
+                feat['shared_' + fn] = feat.get('shared_' + fn, 0) + 1
     nl_ = rng.rint(0, 2) if rng.chance(1, 3) else 0
     for _ in range(nl_):
         i, j = rng.below(n), rng.below(n)
@@ -134,8 +158,15 @@ def gen_model(rng, feat):
     return m
 
 
-def gen_accept(rng, feat):
+FUNC_TYPE = {'sin': 'SinConstraint', 'cos': 'CosConstraint', 'exp': 'ExpConstraint', 'abs': 'AbsConstraint', 'max': 'MaxConstraint'}
+
+
+def gen_accept(rng, feat, m=None):
     acc = ['LinConLE', 'LinConEQ', 'LinConGE']
+    for (fn, _a) in (getattr(m, 'atoms', None) or {}):
+        if rng.chance(3, 4) and FUNC_TYPE[fn] not in acc:
+            acc.append(FUNC_TYPE[fn])
+            feat['acc_native_' + fn] = feat.get('acc_native_' + fn, 0) + 1
     if rng.chance(1, 2):
         acc.append('LinConRange')
         feat['acc_linrange'] = feat.get('acc_linrange', 0) + 1
@@ -148,7 +179,7 @@ def gen_accept(rng, feat):
         acc += [QUADS[0]]           # only ranges: LE/GE/EQ are converted to ranges
     feat['acc_quad_%d' % q] = feat.get('acc_quad_%d' % q, 0) + 1
     for e in EXTRA_ACCEPT:
-        if rng.chance(1, 3):
+        if rng.chance(1, 3) and e not in acc:
             acc.append(e)
     return acc
 
@@ -342,14 +373,19 @@ def flows_from_run(r, script, calls, sol):
             fl.append(Flow('basis_out', 'post', 'basis', {'dest_vars()': vec_int(e['solver_var']), 'dest_cons(3)': vec_int(e['solver_con'])},
                            {'src_vars()': vec_int(e['var']), 'src_cons()': vec_int(e['con'])}))
         elif ev == 'iis_out':
-            fl.append(Flow('iis_out', 'post', 'iis', {'dest_vars()': vec_int(e['solver_var']), 'dest_cons(3)': vec_int(e['solver_con'])},
-                           {'src_vars()': vec_int(e['var']), 'src_cons()': vec_int(e['con'])}))
+            inp = {'dest_vars()': vec_int(e['solver_var']), 'dest_cons(3)': vec_int(e['solver_con'])}
+            for g, v in (e.get('solver_con_g') or {}).items():
+                inp['dest_cons(%d)' % int(g)] = vec_int(v)
+            fl.append(Flow('iis_out', 'post', 'iis', inp, {'src_vars()': vec_int(e['var']), 'src_cons()': vec_int(e['con'])}))
+        elif ev == 'modelsuffix':
+            src = mv_from_log(e['src'], False, 'src')
+            fl.append(Flow('modelsuffix_' + e['name'], 'pre', 'gint', {k_: v for k_, v in src.items()}, mv_from_log(e['pre'], False, 'dest')))
     return fl
 
 
 # --------------------------------------------------------------------------- the check
 def run(ck):
-    proof_ok, failing = ck.proof_stage('MpVerif.C04.Props', 'MpVerif/C04/Props.lean', 'C04_', ['MpVerif/C04/*.lean'], expect_min=21)
+    proof_ok, failing = ck.proof_stage('MpVerif.C04.Props', 'MpVerif/C04/Props.lean', 'C04_', ['MpVerif/C04/*.lean'], expect_min=24)
     ck.log('proof stage: ok=%s failing=%s' % (proof_ok, failing[:8]))
     if ck.tier == 'thorough' and proof_ok:
         bad = ck.leanchecker(['MpVerif.C04.Props'])
@@ -379,7 +415,11 @@ def run(ck):
     model_replay(ck, drv, cases, st)
     for c in cases:
         oracle(ck, c, st)
+        oracle_shared(ck, c, st)
+    model_replay_shared(ck, drv, cases, st)
+    for c in cases:
         certificates(ck, c, st)
+        certificates_shared(ck, c, st)
     if not os.environ.get('C04_NO_SANITIZER'):      # (used when trying hand mutants: saves building the ASan driver of the mutated tree)
         sanitizer_stream(ck, cases, st)
     verdicts(ck, cases, st, proof_ok, failing)
@@ -402,7 +442,7 @@ def gen_case(rng, d, feat, exe):
     os.makedirs(d, exist_ok=True)
     c.stub = os.path.join(d, 'm')
     m = gen_model(rng, feat)
-    c.accept = gen_accept(rng, feat)
+    c.accept = gen_accept(rng, feat, m)
     c.options = []
     if rng.chance(2, 3):
         c.options.append('acc:linrange=0')
@@ -435,6 +475,9 @@ def gen_case(rng, d, feat, exe):
     if rng.chance(1, 2) and m.cons:
         m.suffixes.append({'name': 'lazy', 'kind': 1, 'float': False, 'vals': {i: rng.choice([1, 2, 3, -1]) for i in range(len(m.cons)) if rng.chance(1, 2)}})
         feat['nl_lazy'] = feat.get('nl_lazy', 0) + 1
+    if m.atoms and m.cons and rng.chance(2, 3):
+        m.suffixes.append({'name': 'funcpieces', 'kind': 1, 'float': False, 'vals': {i: rng.rint(1, 9) for i in range(len(m.cons)) if rng.chance(2, 3)}})
+        feat['nl_funcpieces'] = feat.get('nl_funcpieces', 0) + 1
     m.suffixes = [s for s in m.suffixes if s['vals']]
     m.write(c.stub)
     c.model = m
@@ -481,6 +524,13 @@ def gen_answer(c, st):
         bad = rng.chance(1, 6)        # statuses outside {non, low, fix, upp} on variables
         s['iisvar'] = rvec_int(rng, rlen(rng, nv, feat, 'iisvar'), [0, 0, 1, 2, 3] + ([4, 5, 8] if bad else []))
         s['iiscon'] = rvec_int(rng, rlen(rng, nlin, feat, 'iiscon'), [0, 1, 2, 3, 4, 5])
+        ngen = groups.get(CG_GEN, 0)
+        if ngen and rng.chance(2, 3):      # IIS statuses of the general (functional) constraints, as e.g. Gurobi reports them
+            s['iiscong'] = {CG_GEN: rvec_int(rng, rlen(rng, ngen, feat, 'iiscong'), [0, 0, 4, 4, 5])}
+            if rng.chance(1, 2):           # only general constraints flagged: every original user must still be in the IIS
+                s['iisvar'] = [0] * len(s['iisvar'])
+                s['iiscon'] = [0] * len(s['iiscon'])
+                feat['iis_only_general'] = feat.get('iis_only_general', 0) + 1
         if bad:
             feat['iis_bad_status_stream'] = feat.get('iis_bad_status_stream', 0) + 1
         if c.slack_vars and rng.chance(1, 5):      # directed: a range-slack variable reported with 'mem'/'pmem'/'bug'
@@ -529,6 +579,16 @@ def gen_answer(c, st):
             if rng.chance(1, 3):
                 call['O'] = vec(n_src_o, 'O')
         calls.append(call)
+    # directed probes of shared items: one non-zero value on ONE general constraint (postsolve), nothing else loaded
+    ngen = groups.get(CG_GEN, 0)
+    if ngen and getattr(c.model, 'atoms', None):
+        for _ in range(rng.rint(1, 2)):
+            k = rng.choice(['iis', 'gint', 'gdbl', 'basis', 'lazy', 'sol'])
+            r_ = rng.below(ngen)
+            v = [0] * ngen
+            v[r_] = {'iis': 4, 'basis': rng.rint(1, 6), 'lazy': rng.choice([1, 2, -1])}.get(k, rng.rint(1, 9))
+            calls.insert(rng.below(len(calls) + 1), {'dir': 'post', 'kind': k, 'V': None, 'C': {CG_GEN: v}, 'O': None})
+            feat['probe_post_' + k] = feat.get('probe_post_' + k, 0) + 1
     c.calls = calls
 
 
@@ -578,7 +638,8 @@ def execute_case(ck, exe, c, st):
     sfile = c.stub + '.script'
     s = c.script
     recsolver.write_script(sfile, code=s.get('code', 0), x=s.get('x'), pi=s.get('pi'), piq=s.get('piq'), obj=s.get('obj'),
-                           varstt=s.get('varstt'), constt=s.get('constt'), iisvar=s.get('iisvar'), iiscon=s.get('iiscon'))
+                           varstt=s.get('varstt'), constt=s.get('constt'), iisvar=s.get('iisvar'), iiscon=s.get('iiscon'),
+                           iiscong=s.get('iiscong'))
     cfile = c.stub + '.calls'
     write_calls(cfile, c.calls)
     r = recsolver.run(exe, c.stub, options=c.options, accept=c.accept, script=sfile, env=env_of(c, cfile), timeout=120)
@@ -697,6 +758,53 @@ def model_replay(ck, drv, cases, st):
         elif what == 'flow':
             payload.model = parse_call_out(line)
             st.n_flows += 1
+
+
+
+def model_replay_shared(ck, drv, cases, st):
+    """second driver pass: certificates for shared items (needs the oracle's matching of delivered general constraints)"""
+    ops, plan = [], []
+    for c in cases:
+        c.shared_certs = {}
+        if c.problem or getattr(c, 'graph_error', None) or not getattr(c, 'shared_delivered', None):
+            continue
+        ids = c.ids
+        dcg, sc = ids.get('dest_cons(%d)' % CG_GEN), ids.get('src_cons()')
+        if dcg is None or sc is None:
+            continue
+        glines, err = graph_ops(c.lg, ids, c.bounds)
+        ops += glines
+        plan += [None] * len(glines)
+        loaded_pre = [c.nid('src_vars()'), c.nid('src_objs()'), c.nid('src_cons()')]
+        loaded_post = [c.nid('dest_vars()'), c.nid('dest_objs()')] + [i for nm, i in ids.items() if nm.startswith('dest_cons(') and i is not None]
+        for it_i, (it, r) in enumerate(c.shared_delivered):
+            ops.append('sources %d %d %d %s' % (dcg, r, len(loaded_pre), ' '.join(map(str, loaded_pre))))
+            plan.append((c, ('sources', it_i, None)))
+            # the intermediate cell the users are linked to: source of the copy entry into dest_cons(6)[r]
+            tcell = None
+            for e in c.lg['entries']:
+                if e['t'] == 'CopyLink' and e['d'][0][0] == 'dest_cons(%d)' % CG_GEN and e['d'][0][1] <= r < e['d'][0][2]:
+                    tcell = (ids[e['s'][0][0]], e['s'][0][1] + (r - e['d'][0][1]))
+            if tcell is None:
+                continue
+            for k in ('iis', 'basis', 'generic', 'sol', 'lazy'):
+                for u in it['users']:
+                    ops.append('reach %s %d %d %d %d %d %s' % (k, sc, u, tcell[0], tcell[1], len(loaded_post), ' '.join(map(str, loaded_post))))
+                    plan.append((c, ('reach', it_i, (k, u))))
+    if not ops:
+        return
+    opf = os.path.join(BUILD, 'c04', 'ops_shared.txt')
+    open(opf, 'w').write('\n'.join(ops) + '\n')
+    with open(opf) as fi:
+        p = subprocess.run([drv], stdin=fi, capture_output=True, text=True)
+    outl = p.stdout.split('\n')
+    if p.returncode != 0 or len(outl) < len(ops):
+        raise RuntimeError('lean driver failed (shared): rc=%s %s' % (p.returncode, p.stderr[-300:]))
+    for pl, line in zip(plan, outl):
+        if pl is not None:
+            pl[0].shared_certs[pl[1]] = line
+            if line == 'bad-op':
+                pl[0].bad_ops.append(str(pl[1]))
 
 
 def make_nid(ids, nnodes):
@@ -1033,6 +1141,114 @@ def oracle(ck, c, st):
 
 
 
+
+# --------------------------------------------------------------------------- items shared by several original constraints
+def shared_items_of(c):
+    """functional subexpressions used by >= 1 constraints, in NL terms: [{'type', 'args': [NL var positions], 'users': [NL con indices]}]"""
+    m = c.model
+    if isinstance(m, ReplayModel):
+        return m.shared
+    out = []
+    inv = {i: k for k, i in enumerate(m.con_order)}
+    for (fn, args), users in (getattr(m, 'atoms', None) or {}).items():
+        if users:
+            out.append({'type': FUNC_TYPE[fn], 'args': [m.pos[a] for a in args], 'users': sorted(inv[u] for u in users)})
+    return out
+
+
+def maxnz(vals):
+    r = F(0)
+    for v in vals:
+        r = setnum(r, F(v))
+    return r
+
+
+def delivered_shared(c):
+    """[(shared item, r)] : r = index of the delivered general constraint (group 6) with that type and arguments"""
+    gen = [e for e in c.r['log'] if e['ev'] == 'con' and e['group'] == CG_GEN]
+    out = []
+    for it in shared_items_of(c):
+        cands = [r for r, e in enumerate(gen) if e['type'] == it['type'] and isinstance(e['data'].get('args'), list) and
+                 (sorted(e['data']['args']) == sorted(it['args']) if it['type'] == 'MaxConstraint' else e['data']['args'] == it['args'])]
+        if len(cands) == 1:
+            out.append((it, cands[0]))
+    return out
+
+
+def oracle_shared(ck, c, st):
+    """values sent either way land on the images of the items they were given for — for a functional constraint shared by
+    several original constraints: presolve delivers the max among non-zero over ALL users, a postsolved non-zero value
+    reaches EVERY user (independent of the link graph and of the Lean model)"""
+    if c.problem or getattr(c, 'graph_error', None):
+        return
+    c.shared_delivered = delivered_shared(c)
+    for it, r in c.shared_delivered:
+        st.oracle['shared_item_delivered'] = st.oracle.get('shared_item_delivered', 0) + 1
+        if len(it['users']) > 1:
+            st.oracle['shared_item_multi_user'] = st.oracle.get('shared_item_multi_user', 0) + 1
+
+    def bad(sig, what, f):
+        o = replay_obj(c)
+        o.update({'flow': f.name, 'inputs': {k: [str(t) for t in v] for k, v in f.inputs.items()},
+                  'real': {k: [str(t) for t in v] for k, v in f.results.items() if isinstance(v, list)}})
+        if ck.add_violation(sig, what, o, found_input=True):
+            c.oracle_failed = True
+    for f in c.flows:
+        if f.raised:
+            continue
+        for it, r in c.shared_delivered:
+            if f.dir == 'post':
+                v = getz(f.inputs.get('dest_cons(%d)' % CG_GEN), r)
+                if v == 0:
+                    continue
+                rc_ = f.results.get('src_cons()', [])
+                for u in it['users']:
+                    got = getz(rc_, u)
+                    if got == 0 or got < v:
+                        bad('shared:post:%s:user-not-reached' % f.kind,
+                            'the solver reports %s for the %s on variable(s) %s (general constraint %d); original constraint %d, which contains that expression, received %s (users: %s; max among non-zero demands a non-zero value >= %s)'
+                            % (v, it['type'], it['args'], r, u, got, it['users'], v), f)
+                    else:
+                        st.oracle['shared_post_user_reached'] = st.oracle.get('shared_post_user_reached', 0) + 1
+            else:
+                if 'src_objs()' in f.inputs and any(t != 0 for t in f.inputs['src_objs()']):
+                    continue
+                C0 = f.inputs.get('src_cons()')
+                want = maxnz([getz(C0, u) for u in it['users']])
+                got = getz(f.results.get('dest_cons(%d)' % CG_GEN), r)
+                if got != want:
+                    bad('shared:pre:%s:not-max-over-users' % f.kind,
+                        'the %s on variable(s) %s (general constraint %d) received %s; the values given for its users %s are %s (max among non-zero = %s)'
+                        % (it['type'], it['args'], r, got, it['users'], [str(getz(C0, u)) for u in it['users']], want), f)
+                else:
+                    st.oracle['shared_pre_max_ok'] = st.oracle.get('shared_pre_max_ok', 0) + 1
+
+
+def certificates_shared(ck, c, st):
+    """Lean certificates (hypotheses of C04_shared_presolve_max / C04_shared_postsolve_reaches) on the real graph"""
+    for key, line in getattr(c, 'shared_certs', {}).items():
+        what, it_i, extra = key
+        it, r = c.shared_delivered[it_i]
+        ids = c.ids
+        sc, dcg = ids.get('src_cons()'), ids.get('dest_cons(%d)' % CG_GEN)
+        if what == 'sources':
+            want = sorted('%d:%d' % (sc, u) for u in it['users'])
+            got = sorted(line.split()[2:]) if line.startswith('sources ok') else None
+            if got != want:
+                ck.add_violation('cert:shared:pre:sources', 'general constraint %d (%s %s): the entries feeding it in a presolve run come from %s, the users are %s'
+                                 % (r, it['type'], it['args'], line, want), replay_obj(c), found_input=getattr(c, 'oracle_failed', False))
+            else:
+                st.oracle['cert_shared_sources'] = st.oracle.get('cert_shared_sources', 0) + 1
+        else:
+            k, u = extra
+            want = 'reach 1 init:%d:%d' % (dcg, r)
+            if line != want:
+                ck.add_violation('cert:shared:post:reach', 'user constraint %d of general constraint %d (%s %s), kind %s: certificate "%s", demanded "%s"'
+                                 % (u, r, it['type'], it['args'], k, line, want), replay_obj(c), found_input=getattr(c, 'oracle_failed', False))
+            else:
+                st.oracle['cert_shared_reach'] = st.oracle.get('cert_shared_reach', 0) + 1
+
+
 def certificates(ck, c, st):
     """the Lean certificate (symbolic origin of every original item on the REAL graph) must be the one the property
     demands; items are matched to delivered rows by the oracle (independently of the graph)."""
@@ -1187,6 +1403,8 @@ def case_from_replay(obj, d):
     c.ismip = obj.get('ismip', 0)
     c.code = obj['script'].get('code', 0)
     c.script = {k: ([F(t) for t in v] if isinstance(v, list) else v) for k, v in obj['script'].items()}
+    if c.script.get('iiscong'):
+        c.script['iiscong'] = {int(g): [F(t) for t in v] for g, v in c.script['iiscong'].items()}
     c.calls = []
     for cl in obj.get('calls', []):
         cc = {'dir': cl['dir'], 'kind': cl['kind'], 'V': None, 'C': None, 'O': None}
@@ -1211,10 +1429,13 @@ class ReplayModel:
         self.lcons = [None] * obj['n_lcons']
         self.objs = [None] * obj['n_objs']
         self.nl_cons = obj['nl_cons']
+        self.shared = obj.get('shared', [])
 
 
 def replay_obj(c):
     def sv(v):
+        if isinstance(v, dict):
+            return {str(g): sv(x) for g, x in v.items()}
         return [str(F(t)) for t in v] if isinstance(v, list) else v
     calls = []
     for cl in c.calls:
@@ -1224,7 +1445,7 @@ def replay_obj(c):
     o = {'nl': open(c.stub + '.nl').read(), 'accept': c.accept, 'options': c.options, 'ismip': c.ismip,
          'script': {k: sv(v) for k, v in getattr(c, 'script', {}).items()}, 'calls': calls,
          'n_vars': len(c.model.vars), 'n_cons': len(c.model.cons), 'n_lcons': len(c.model.lcons), 'n_objs': len(c.model.objs),
-         'nl_cons': nl_cons_of(c),
+         'nl_cons': nl_cons_of(c), 'shared': shared_items_of(c),
          'how': 'save this object as a file and run ./check C04 --replay <file>'}
     for ext in ('col', 'row'):
         if os.path.exists(c.stub + '.' + ext):
@@ -1355,7 +1576,10 @@ def replay(ck, path):
         print('run problem:', c.problem)
     model_replay(ck, drv, [c], st)
     oracle(ck, c, st)
+    oracle_shared(ck, c, st)
+    model_replay_shared(ck, drv, [c], st)
     certificates(ck, c, st)
+    certificates_shared(ck, c, st)
     for f in c.flows + ([c.final_flow] if not c.problem else []):
         print('--', f.name, f.dir, f.kind, 'RAISED' if f.raised else '')
         print('   inputs :', {k: [str(t) for t in v] for k, v in f.inputs.items()})
